@@ -874,6 +874,15 @@ def mutability_of_fields(ana: Analysis) -> Dict[Tuple[str, str], bool]:
 def _is_immutable_value(ana, fi, v) -> bool:
     if isinstance(v, ast.Constant):
         return True
+    # rank-0 by reconstruction (reductions, slogdet components, python numbers)
+    try:
+        b = ana.builder(fi, no_inline=ana.known)
+        t = b.term(v)
+        from . import terms as _tm
+        if isinstance(t, _tm.Lit) or (isinstance(t, _tm.Poly) and t.const_value() is not None) or b.ranks.rank(t) == 0:
+            return True
+    except Exception:
+        pass
     if isinstance(v, ast.Subscript) and isinstance(v.value, ast.Call):
         r = ana.res.fq_of_expr(fi, v.value.func)
         if r and r[1] in ("numpy.linalg.slogdet",):
